@@ -198,10 +198,12 @@ func profileFor(prop string) Profile {
 	case "C02":
 		p.Ops = [2]int{15, 50}
 		p.Stall = true
+		p.Reload, p.Crash = true, true // histories include restarts and reloads: the tables are rebuilt from the store
 	case "C03":
 		p.Relist, p.AdminRelease = true, true
 		p.Ops = [2]int{15, 50}
 		p.Stall = true
+		p.Reload, p.Crash = true, true // histories include restarts and reloads: the tables are rebuilt from the store
 	case "C07":
 		p.PoolAPI, p.Pools = true, true
 		p.Kinds = []string{"dp", "dp", "dp", "sts"}
